@@ -120,7 +120,12 @@ func newL2EnvGen(o L2EnvOpts, gvals []opchildtypes.Validator) (e *L2Env, err err
 		return e, ierr
 	}
 	if !o.NoBridgeInfo {
+		// either configured executor may bind the bridge; which of them is refused (if any) is for the properties about
+		// authorisation to judge, not for the environment setup
 		res := e.L2.Deliver(opchildtypes.NewMsgSetBridgeInfo(e.Executors[0].String(), e.BridgeInfo("", o.OracleEnabled)))
+		if res.Class != sim.OK {
+			res = e.L2.Deliver(opchildtypes.NewMsgSetBridgeInfo(e.Executors[1].String(), e.BridgeInfo("", o.OracleEnabled)))
+		}
 		if res.Class != sim.OK {
 			panic("set bridge info: " + res.ErrString())
 		}
